@@ -88,6 +88,8 @@ class M:
         return None
 
     def cond(self, c):
+        if isinstance(c, ast.Name) and c.id in getattr(self, "abbrev", {}):
+            return self.cond(self.abbrev[c.id])
         if ast.unparse(c) in self.flag_exprs:
             return f"(DFlag {self.flag_exprs[ast.unparse(c)]})"
         if isinstance(c, ast.BoolOp) and isinstance(c.op, ast.Or):
@@ -339,7 +341,7 @@ def translate():
         body = [s for s in fns[0].body if not (isinstance(s, ast.Expr) and isinstance(s.value, ast.Constant))]
         out.append(f"Definition {coqname} : list dstmt :=\n  {M(labels, flags, kw, ids, direction).block(body)}.\n")
     return out + translate_add_edge(cls[0]) + translate_add_edges_from_items(cls[0]) + translate_add_edges_from_dict(cls[0]) \
-        + translate_remove_nodes_from(cls[0])
+        + translate_remove_nodes_from(cls[0]) + translate_add_nodes_from(cls[0])
 
 
 FORMAT_DISPATCH = {
@@ -437,6 +439,27 @@ def translate_remove_nodes_from(cls):
     if len(rest) != 1 or ast.unparse(rest[0]) != f"self.remove_node({var}, strong=strong, remove_empty=remove_empty)":
         raise TranslationError("DiHypergraph.remove_nodes_from: expected the call of remove_node with the same options")
     return [f"Definition dsrc_remove_nodes_from_guards : list (dbexp * guard_action) :=\n  [{'; '.join(gs)}].\n"]
+
+
+DECODE_NODE_ITEM = ("try:\n    newnode = n not in self._node\n    newdict = attr\nexcept TypeError:\n    n, ndict = n\n"
+                    "    newnode = n not in self._node\n    newdict = attr.copy()\n    newdict.update(ndict)")
+
+
+def translate_add_nodes_from(cls):
+    """add_nodes_from(self, nodes_for_adding, **attr): for n in nodes_for_adding: <decoding>; <statements> - see translate_mutators.py"""
+    fns = [n for n in cls.body if isinstance(n, ast.FunctionDef) and n.name == "add_nodes_from"]
+    if len(fns) != 1 or [a.arg for a in fns[0].args.args] != ["self", "nodes_for_adding"] or fns[0].args.kwarg is None \
+            or fns[0].args.kwarg.arg != "attr":
+        raise TranslationError("DiHypergraph.add_nodes_from not found or unexpected parameters")
+    body = [s for s in fns[0].body if not (isinstance(s, ast.Expr) and isinstance(s.value, ast.Constant))]
+    if not (len(body) == 1 and isinstance(body[0], ast.For) and isinstance(body[0].target, ast.Name) and body[0].target.id == "n"
+            and ast.unparse(body[0].iter) == "nodes_for_adding" and not body[0].orelse and body[0].body
+            and ast.unparse(body[0].body[0]) == DECODE_NODE_ITEM):
+        raise TranslationError("DiHypergraph.add_nodes_from: loop or decoding of the item not understood")
+    m = M([], [], "newdict")
+    m.loops = ["n"]
+    m.abbrev = {"newnode": ast.parse("n not in self._node", mode="eval").body}
+    return [f"Definition dsrc_add_nodes_from_item : list dstmt :=\n  {m.block(body[0].body[1:])}.\n"]
 
 
 def translate_add_edge(cls):
